@@ -276,6 +276,409 @@ Proof.
   intros HB HS. apply (walk_ok fuel None None bs ss None []); simpl; auto; constructor.
 Qed.
 
+(* ------------------------------------------------------------------------------------------
+   The comparison is a strict total order on accepted orders of one side (C02) *)
+
+Lemma peq_refl a : peq a a = true.
+Proof. apply peq_spec. split; apply plt_irrefl. Qed.
+Lemma peq_sym a b : peq a b = true -> peq b a = true.
+Proof. intros H. apply peq_spec in H. apply peq_spec. tauto. Qed.
+Lemma plt_asym a b : plt a b = true -> plt b a = false.
+Proof.
+  intros H. destruct (plt b a) eqn:E; auto.
+  pose proof (plt_trans _ _ _ H E) as C. now rewrite plt_irrefl in C.
+Qed.
+Lemma peq_trans a b c : peq a b = true -> peq b c = true -> peq a c = true.
+Proof.
+  intros H1 H2. apply peq_spec. split.
+  - destruct (plt a c) eqn:E; auto.
+    (* a<c, a~b => b<c, contradiction with b~c *)
+    pose proof (peq_lt_l b a c (peq_sym _ _ H1) E) as C. apply peq_spec in H2. destruct H2; congruence.
+  - destruct (plt c a) eqn:E; auto.
+    pose proof (peq_lt_r c a b H1 E) as C. apply peq_spec in H2. destruct H2; congruence.
+Qed.
+Lemma peq_false_total a b : peq a b = false -> plt a b = true \/ plt b a = true.
+Proof.
+  intros H. destruct (plt a b) eqn:E1; auto. destruct (plt b a) eqn:E2; auto.
+  assert (peq a b = true) by (apply peq_spec; auto). congruence.
+Qed.
+
+Lemma time_lt_irrefl a : time_lt a a = false.
+Proof. unfold time_lt. rewrite Z.eqb_refl. apply Z.ltb_irrefl. Qed.
+Lemma time_lt_trans a b c : time_lt a b = true -> time_lt b c = true -> time_lt a c = true.
+Proof.
+  unfold time_lt. intros H1 H2.
+  destruct (placed a =? placed b) eqn:E1, (placed b =? placed c) eqn:E2, (placed a =? placed c) eqn:E3;
+    rewrite ?Z.eqb_eq, ?Z.eqb_neq, ?Z.ltb_lt in *; lia.
+Qed.
+Lemma time_lt_total a b : oid a <> oid b -> time_lt a b = true \/ time_lt b a = true.
+Proof.
+  unfold time_lt. intros H. rewrite (Z.eqb_sym (placed b)).
+  destruct (placed a =? placed b) eqn:E; rewrite ?Z.eqb_eq, ?Z.eqb_neq, ?Z.ltb_lt in *; lia.
+Qed.
+Lemma time_lt_asym a b : time_lt a b = true -> time_lt b a = false.
+Proof.
+  unfold time_lt. rewrite (Z.eqb_sym (placed b)).
+  destruct (placed a =? placed b) eqn:E; rewrite ?Z.eqb_eq, ?Z.eqb_neq, ?Z.ltb_lt, ?Z.ltb_ge in *; lia.
+Qed.
+
+Theorem olt_irrefl a : olt a a = false.
+Proof.
+  unfold olt. destruct (price a) as [p|]; [rewrite peq_refl|]; apply time_lt_irrefl.
+Qed.
+
+Theorem olt_asym a b : isbuy a = isbuy b -> olt a b = true -> olt b a = false.
+Proof.
+  unfold olt. intros Hs. rewrite <- Hs.
+  destruct (price a) as [pa|], (price b) as [pb|]; auto; try discriminate.
+  - destruct (peq pa pb) eqn:E.
+    + rewrite (peq_sym _ _ E). apply time_lt_asym.
+    + assert (E' : peq pb pa = false).
+      { destruct (peq pb pa) eqn:X; auto. apply peq_sym in X. congruence. }
+      rewrite E'. destruct (isbuy a); apply plt_asym.
+  - apply time_lt_asym.
+Qed.
+
+Theorem olt_trans a b c : isbuy a = isbuy b -> isbuy b = isbuy c ->
+  olt a b = true -> olt b c = true -> olt a c = true.
+Proof.
+  unfold olt. intros S1 _. rewrite <- S1.
+  destruct (price a) as [pa|], (price b) as [pb|], (price c) as [pc|]; auto; try discriminate.
+  - destruct (peq pa pb) eqn:E1, (peq pb pc) eqn:E2.
+    + rewrite (peq_trans _ _ _ E1 E2). apply time_lt_trans.
+    + intros _ H. assert (E3 : peq pa pc = false).
+      { destruct (peq pa pc) eqn:X; auto. pose proof (peq_trans _ _ _ (peq_sym _ _ E1) X). congruence. }
+      rewrite E3. destruct (isbuy a).
+      * eapply peq_lt_r; [apply peq_sym; exact E1 | exact H].
+      * eapply peq_lt_l; eauto.
+    + intros H _. assert (E3 : peq pa pc = false).
+      { destruct (peq pa pc) eqn:X; auto. pose proof (peq_trans _ _ _ X (peq_sym _ _ E2)). congruence. }
+      rewrite E3. destruct (isbuy a).
+      * eapply peq_lt_l; [apply peq_sym; exact E2 | exact H].
+      * eapply peq_lt_r; eauto.
+    + intros H1 H2. assert (E3 : peq pa pc = false).
+      { destruct (peq pa pc) eqn:X; auto. apply peq_spec in X. destruct X as [X1 X2].
+        destruct (isbuy a).
+        - pose proof (plt_trans _ _ _ H2 H1). congruence.
+        - pose proof (plt_trans _ _ _ H1 H2). congruence. }
+      rewrite E3. destruct (isbuy a); eapply plt_trans; eauto.
+  - apply time_lt_trans.
+Qed.
+
+Theorem olt_total a b : oid a <> oid b -> isbuy a = isbuy b -> olt a b = true \/ olt b a = true.
+Proof.
+  unfold olt. intros Hi Hs. rewrite <- Hs.
+  destruct (price a) as [pa|], (price b) as [pb|]; auto.
+  - destruct (peq pa pb) eqn:E.
+    + rewrite (peq_sym _ _ E). apply time_lt_total; auto.
+    + assert (E' : peq pb pa = false).
+      { destruct (peq pb pa) eqn:X; auto. apply peq_sym in X. congruence. }
+      rewrite E'. destruct (peq_false_total _ _ E); destruct (isbuy a); auto.
+  - apply time_lt_total; auto.
+Qed.
+
+(* the ranking the property states: market orders first, then better price, then earlier
+   acceptance time, then lower id *)
+Theorem olt_ranking a b :
+  olt a b = true <->
+  match price a, price b with
+  | None, Some _ => True
+  | Some _, None => False
+  | None, None => placed a < placed b \/ (placed a = placed b /\ oid a < oid b)
+  | Some pa, Some pb =>
+      (if isbuy a then plt pb pa = true else plt pa pb = true) \/
+      (peq pa pb = true /\ (placed a < placed b \/ (placed a = placed b /\ oid a < oid b)))
+  end.
+Proof.
+  assert (T : time_lt a b = true <-> placed a < placed b \/ (placed a = placed b /\ oid a < oid b)).
+  { unfold time_lt. destruct (placed a =? placed b) eqn:E; rewrite ?Z.eqb_eq, ?Z.eqb_neq, ?Z.ltb_lt in *; lia. }
+  unfold olt. destruct (price a) as [pa|], (price b) as [pb|]; try tauto.
+  - destruct (peq pa pb) eqn:E.
+    + rewrite T. split; [intros H; right; auto|].
+      intros [H|[_ H]]; auto. apply peq_spec in E. destruct E. destruct (isbuy a); congruence.
+    + split; [intros H; left; destruct (isbuy a); auto|]. intros [H|[H _]]; [destruct (isbuy a); auto|discriminate].
+  - split; [discriminate|tauto].
+Qed.
+
+(* ------------------------------------------------------------------------------------------
+   Where the fills come from, in which order, and how the round's price is chosen (C01) *)
+
+Definition fvol (f : fill) : Z := match f with Fill v _ _ => v end.
+Definition cur_list (c : option (order*Z)) (l : list order) : list order :=
+  match c with Some (b, _) => b :: l | None => l end.
+
+Lemma refill_cur c l c' l' : refill c l = (c', l') -> incl (cur_list c' l') (cur_list c l).
+Proof.
+  unfold refill, need_pop, cur_list. destruct c as [[b r]|].
+  - destruct (r =? 0).
+    + destruct l; intros H; inversion H; subst; intros x Hx; simpl in *; auto.
+    + intros H; inversion H; subst. apply incl_refl.
+  - destruct l; intros H; inversion H; subst; apply incl_refl.
+Qed.
+
+Lemma walk_fills_from fuel : forall cb cs bs ss p acc (B S : list order),
+  incl (cur_list cb bs) B -> incl (cur_list cs ss) S ->
+  Forall (fun f => In (fbuy f) B /\ In (fsell f) S) acc ->
+  Forall (fun f => In (fbuy f) B /\ In (fsell f) S) (snd (walk fuel cb cs bs ss p acc)).
+Proof.
+  induction fuel as [|f IH]; intros cb cs bs ss p acc B S HB HS HA; simpl; [exact HA|].
+  destruct (refill cb bs) as [cb' bs'] eqn:Eb.
+  destruct cb' as [[b bt]|]; [|exact HA].
+  destruct (refill cs ss) as [cs' ss'] eqn:Es.
+  destruct cs' as [[s st]|]; [|exact HA].
+  destruct (crossing b s); [|exact HA].
+  pose proof (refill_cur _ _ _ _ Eb) as Ib. pose proof (refill_cur _ _ _ _ Es) as Is.
+  apply IH.
+  - simpl in *. eapply incl_tran; eauto.
+  - simpl in *. eapply incl_tran; eauto.
+  - apply Forall_app. split; auto. constructor; auto. simpl. split.
+    + apply HB. apply Ib. left; auto.
+    + apply HS. apply Is. left; auto.
+Qed.
+
+Definition cp_fold (fs : list fill) (p : option P) : option P :=
+  fold_left (fun p f => choose_price (fbuy f) (fsell f) p) fs p.
+
+Lemma walk_price_fold fuel : forall cb cs bs ss p acc,
+  exists new, snd (walk fuel cb cs bs ss p acc) = acc ++ new /\
+              fst (walk fuel cb cs bs ss p acc) = cp_fold new p.
+Proof.
+  induction fuel as [|f IH]; intros cb cs bs ss p acc; simpl.
+  - exists []. rewrite app_nil_r. auto.
+  - destruct (refill cb bs) as [cb' bs'].
+    destruct cb' as [[b bt]|]; [|exists []; rewrite app_nil_r; auto].
+    destruct (refill cs ss) as [cs' ss'].
+    destruct cs' as [[s st]|]; [|exists []; rewrite app_nil_r; auto].
+    destruct (crossing b s); [|exists []; rewrite app_nil_r; auto].
+    destruct (IH (Some (b, bt - Z.min bt st)) (Some (s, st - Z.min bt st)) bs' ss' (choose_price b s p)
+                 (acc ++ [Fill (Z.min bt st) b s])) as [new [H1 H2]].
+    exists (Fill (Z.min bt st) b s :: new). rewrite H1, H2. rewrite <- app_assoc. simpl. auto.
+Qed.
+
+(* the rule itself, as the property words it *)
+Definition rule_price (b s : order) : option P :=
+  match price b, price s with
+  | Some pb, Some ps =>
+      if (placed b <? placed s) || ((placed b =? placed s) && (oid b <? oid s)) then Some pb else Some ps
+  | Some pb, None => Some pb
+  | None, Some ps => Some ps
+  | None, None => None
+  end.
+
+Lemma choose_price_rule b s old :
+  (price b <> None \/ price s <> None) -> choose_price b s old = rule_price b s.
+Proof.
+  unfold choose_price, rule_price. destruct (price b), (price s); intros H; auto.
+  - destruct (placed b =? placed s) eqn:E.
+    + apply Z.eqb_eq in E. rewrite E, Z.ltb_irrefl. simpl. reflexivity.
+    + rewrite andb_false_l, orb_false_r. reflexivity.
+  - destruct H; congruence.
+Qed.
+
+Lemma cp_fold_mm fs : Forall mm fs -> cp_fold fs None = None.
+Proof.
+  unfold cp_fold. induction fs as [|f r IH]; simpl; auto. intros H. inversion H as [|? ? [Hb Hs] Hr]; subst.
+  unfold choose_price at 2. rewrite Hb, Hs. auto.
+Qed.
+
+Lemma cp_fold_last fs f p : cp_fold (fs ++ [f]) p = choose_price (fbuy f) (fsell f) (cp_fold fs p).
+Proof. unfold cp_fold. rewrite fold_left_app. reflexivity. Qed.
+
+(* fills are produced in priority order on both sides *)
+Definition fills_ordered (fs : list fill) : Prop :=
+  ForallOrdPairs (fun f g => bge (price (fbuy f)) (price (fbuy g)) /\ sle (price (fsell f)) (price (fsell g))) fs.
+
+Lemma fop_app {A} (R : A -> A -> Prop) l x :
+  ForallOrdPairs R l -> Forall (fun y => R y x) l -> ForallOrdPairs R (l ++ [x]).
+Proof.
+  induction l as [|y r IH]; simpl; intros H1 H2.
+  - constructor; constructor.
+  - inversion H1; subst. inversion H2; subst. constructor.
+    + apply Forall_app. split; auto.
+    + apply IH; auto.
+Qed.
+
+Lemma walk_ordered fuel : forall cb cs bs ss p acc,
+  bbook (front cb bs) -> sbook (front cs ss) ->
+  mono acc (front cb bs) (front cs ss) -> fills_ordered acc ->
+  fills_ordered (snd (walk fuel cb cs bs ss p acc)).
+Proof.
+  induction fuel as [|f IH]; intros cb cs bs ss p acc HB HS HM HO; simpl; [exact HO|].
+  destruct (refill cb bs) as [cb' bs'] eqn:Eb.
+  destruct cb' as [[b bt]|]; [|exact HO].
+  destruct (refill cs ss) as [cs' ss'] eqn:Es.
+  destruct cs' as [[s st]|]; [|exact HO].
+  destruct (crossing b s) eqn:Ec; [|exact HO].
+  pose proof (refill_front_some _ _ _ _ _ Eb) as Fb.
+  pose proof (refill_front_some _ _ _ _ _ Es) as Fs.
+  rewrite Fb in HB, HM. rewrite Fs in HS, HM.
+  apply IH.
+  - now apply bbook_front_after.
+  - now apply sbook_front_after.
+  - unfold mono. apply Forall_app. split.
+    + unfold mono in HM. eapply Forall_impl; [|exact HM]. intros x [H1 H2]. split; intros y Hy.
+      * apply H1. eapply front_after; eauto.
+      * apply H2. eapply front_after; eauto.
+    + constructor; [|constructor]. simpl. split; intros y Hy.
+      * eapply bbook_head_bge; eauto. eapply front_after; eauto.
+      * eapply sbook_head_sle; eauto. eapply front_after; eauto.
+  - apply fop_app; auto. unfold mono in HM. eapply Forall_impl; [|exact HM].
+    intros x [H1 H2]. simpl. split; [apply H1|apply H2]; left; auto.
+Qed.
+
+Lemma ordered_last_mm fs f : fills_ordered (fs ++ [f]) -> mm f -> Forall mm (fs ++ [f]).
+Proof.
+  intros HO [Hb Hs]. apply Forall_app. split; [|constructor; [split; auto|constructor]].
+  induction fs as [|g r IH]; [constructor|]. simpl in HO. inversion HO as [|? ? Hg Hr]; subst.
+  constructor; auto. apply Forall_app in Hg. destruct Hg as [_ Hg]. inversion Hg as [|? ? [G1 G2] _]; subst.
+  rewrite Hb in G1. rewrite Hs in G2. unfold bge, sle in *. split.
+  - destruct (price (fbuy g)); tauto.
+  - destruct (price (fsell g)); tauto.
+Qed.
+
+(* C01, third sentence: the round's price is the limit of the earlier-accepted order of the last
+   matched pair (the limit order's price if its counterpart is a market order). *)
+Theorem walk_price_rule fuel bs ss q fs f :
+  bbook bs -> sbook ss ->
+  walk fuel None None bs ss None [] = (Some q, fs ++ [f]) ->
+  rule_price (fbuy f) (fsell f) = Some q /\ (price (fbuy f) <> None \/ price (fsell f) <> None).
+Proof.
+  intros HB HS HW.
+  destruct (walk_price_fold fuel None None bs ss None []) as [new [H1 H2]].
+  rewrite HW in H1, H2. simpl in H1, H2. subst new.
+  assert (HO : fills_ordered (fs ++ [f])).
+  { pose proof (walk_ordered fuel None None bs ss None [] HB HS) as X. rewrite HW in X. simpl in X.
+    apply X; constructor. }
+  assert (NM : price (fbuy f) <> None \/ price (fsell f) <> None).
+  { destruct (price (fbuy f)) eqn:Eb; [left; discriminate|]. destruct (price (fsell f)) eqn:Es; [right; discriminate|].
+    exfalso. assert (M : Forall mm (fs ++ [f])) by (apply ordered_last_mm; auto; split; auto).
+    rewrite (cp_fold_mm _ M) in H2. discriminate. }
+  split; auto. rewrite cp_fold_last in H2. rewrite choose_price_rule in H2; auto.
+Qed.
+
+(* ------------------------------------------------------------------------------------------
+   Price-time priority of the fills (C02): each side of the book is consumed as a prefix.
+   At any point of the walk the book splits into [done ++ current ++ rest]: every order of
+   [done] is filled completely, the (at most one) current order partially, [rest] not at all. *)
+
+Definition filled_of (sel : fill -> order) (fs : list fill) (i : Z) : Z :=
+  fold_right (fun f a => if oid (sel f) =? i then fvol f + a else a) 0 fs.
+
+Lemma filled_of_app sel fs f i :
+  filled_of sel (fs ++ [f]) i = filled_of sel fs i + (if oid (sel f) =? i then fvol f else 0).
+Proof.
+  unfold filled_of. induction fs as [|g r IH]; simpl.
+  - destruct (oid (sel f) =? i); lia.
+  - rewrite IH. destruct (oid (sel g) =? i); lia.
+Qed.
+
+Definition consumed (sel : fill -> order) (B : list order) (c : option (order*Z)) (l : list order)
+           (acc : list fill) : Prop :=
+  exists done, B = done ++ cur_list c l /\
+    Forall (fun x => filled_of sel acc (oid x) = vol x) done /\
+    match c with Some (b, r) => filled_of sel acc (oid b) = vol b - r | None => True end /\
+    Forall (fun x => filled_of sel acc (oid x) = 0) l.
+
+Lemma consumed_refill sel B c l acc c' l' :
+  consumed sel B c l acc -> refill c l = (c', l') -> consumed sel B c' l' acc.
+Proof.
+  intros [done [HB [Hd [Hc Hl]]]]. unfold refill, need_pop. destruct c as [[b r]|].
+  - destruct (r =? 0) eqn:E.
+    + apply Z.eqb_eq in E. subst r. destruct l as [|x l0]; intros H; inversion H; subst; clear H.
+      * exists (done ++ [b]). simpl in *. rewrite app_nil_r. split; [auto|]. split; [|split; auto].
+        apply Forall_app. split; auto. constructor; auto. lia.
+      * exists (done ++ [b]). simpl in *. rewrite <- app_assoc. simpl. split; [auto|].
+        inversion Hl; subst. split; [|split; auto; lia].
+        apply Forall_app. split; auto. constructor; auto. lia.
+    + intros H; inversion H; subst. exists done. auto.
+  - destruct l as [|x l0]; intros H; inversion H; subst; clear H.
+    + exists done. auto.
+    + exists done. simpl in *. inversion Hl; subst. split; [auto|]. split; [auto|]. split; [lia|auto].
+Qed.
+
+Lemma NoDup_app_head_notin (d : list order) b l :
+  NoDup (map (@oid) (d ++ b :: l)) ->
+  Forall (fun x => oid x <> oid b) d /\ Forall (fun x => oid x <> oid b) l.
+Proof.
+  rewrite map_app. simpl. intros H. apply NoDup_remove in H. destruct H as [H1 H2].
+  split; rewrite Forall_forall; intros x Hx E; apply H2; apply in_or_app; [left|right];
+    apply in_map_iff; exists x; auto.
+Qed.
+
+Lemma consumed_fill sel B b bt l acc f :
+  NoDup (map (@oid) B) -> sel f = b ->
+  consumed sel B (Some (b, bt)) l acc ->
+  consumed sel B (Some (b, bt - fvol f)) l (acc ++ [f]).
+Proof.
+  intros ND Hs [done [HB [Hd [Hc Hl]]]]. exists done. simpl in *. split; auto.
+  rewrite HB in ND. destruct (NoDup_app_head_notin _ _ _ ND) as [N1 N2].
+  split; [|split].
+  - rewrite Forall_forall in *. intros x Hx. rewrite filled_of_app, Hs.
+    destruct (oid b =? oid x) eqn:E; [apply Z.eqb_eq in E; exfalso; apply (N1 x Hx); auto|]. rewrite Hd; auto. lia.
+  - rewrite filled_of_app, Hs, Z.eqb_refl. lia.
+  - rewrite Forall_forall in *. intros x Hx. rewrite filled_of_app, Hs.
+    destruct (oid b =? oid x) eqn:E; [apply Z.eqb_eq in E; exfalso; apply (N2 x Hx); auto|]. rewrite Hl; auto.
+Qed.
+
+Lemma consumed_other sel B c l acc f :
+  (forall x, In x B -> oid (sel f) <> oid x) -> consumed sel B c l acc -> consumed sel B c l (acc ++ [f]).
+Proof.
+  intros Hn [done [HB [Hd [Hc Hl]]]]. exists done. split; auto.
+  assert (K : forall x, In x B -> filled_of sel (acc ++ [f]) (oid x) = filled_of sel acc (oid x)).
+  { intros x Hx. rewrite filled_of_app. destruct (oid (sel f) =? oid x) eqn:E; [|lia].
+    apply Z.eqb_eq in E. exfalso. eapply Hn; eauto. }
+  split; [|split].
+  - rewrite Forall_forall in *. intros x Hx. rewrite K; auto. rewrite HB. apply in_or_app; auto.
+  - destruct c as [[b r]|]; auto. rewrite K; auto. rewrite HB. apply in_or_app. right. left. auto.
+  - rewrite Forall_forall in *. intros x Hx. rewrite K; auto. rewrite HB. apply in_or_app. right.
+    destruct c as [[b r]|]; simpl; auto.
+Qed.
+
+Lemma walk_consumed fuel : forall B S cb cs bs ss p acc,
+  NoDup (map (@oid) B) -> NoDup (map (@oid) S) ->
+  consumed fbuy B cb bs acc -> consumed fsell S cs ss acc ->
+  exists cb' bs' cs' ss',
+    consumed fbuy B cb' bs' (snd (walk fuel cb cs bs ss p acc)) /\
+    consumed fsell S cs' ss' (snd (walk fuel cb cs bs ss p acc)).
+Proof.
+  induction fuel as [|f IH]; intros B S cb cs bs ss p acc NB NS HB HS; simpl.
+  - exists cb, bs, cs, ss. auto.
+  - destruct (refill cb bs) as [cb' bs'] eqn:Eb.
+    pose proof (consumed_refill _ _ _ _ _ _ _ HB Eb) as HB'.
+    destruct cb' as [[b bt]|]; [|exists None, bs', cs, ss; auto].
+    destruct (refill cs ss) as [cs' ss'] eqn:Es.
+    pose proof (consumed_refill _ _ _ _ _ _ _ HS Es) as HS'.
+    destruct cs' as [[s st]|]; [|exists (Some (b, bt)), bs', None, ss'; auto].
+    destruct (crossing b s); [|exists (Some (b, bt)), bs', (Some (s, st)), ss'; auto].
+    apply IH; auto.
+    + apply (consumed_fill fbuy B b bt bs' acc (Fill (Z.min bt st) b s)); auto.
+    + apply (consumed_fill fsell S s st ss' acc (Fill (Z.min bt st) b s)); auto.
+Qed.
+
+(* C02: the fills of a round consume each side of the book as a prefix in priority order. *)
+Theorem walk_respects_priority fuel B S :
+  NoDup (map (@oid) B) -> NoDup (map (@oid) S) ->
+  let fs := snd (walk fuel None None B S None []) in
+  (exists done cur rest, B = done ++ cur ++ rest /\ (length cur <= 1)%nat /\
+     Forall (fun x => filled_of fbuy fs (oid x) = vol x) done /\
+     Forall (fun x => filled_of fbuy fs (oid x) = 0) rest) /\
+  (exists done cur rest, S = done ++ cur ++ rest /\ (length cur <= 1)%nat /\
+     Forall (fun x => filled_of fsell fs (oid x) = vol x) done /\
+     Forall (fun x => filled_of fsell fs (oid x) = 0) rest).
+Proof.
+  intros NB NS fs.
+  destruct (walk_consumed fuel B S None None B S None [] NB NS) as [cb [bs [cs [ss [HB HS]]]]].
+  - exists []. simpl. split; auto. split; [constructor|]. split; auto.
+    rewrite Forall_forall. intros; reflexivity.
+  - exists []. simpl. split; auto. split; [constructor|]. split; auto.
+    rewrite Forall_forall. intros; reflexivity.
+  - fold fs in HB, HS. split.
+    + destruct HB as [done [E [Hd [_ Hl]]]]. exists done.
+      destruct cb as [[b r]|]; [exists [b], bs | exists [], bs]; simpl in *; auto.
+    + destruct HS as [done [E [Hd [_ Hl]]]]. exists done.
+      destruct cs as [[s r]|]; [exists [s], ss | exists [], ss]; simpl in *; auto.
+Qed.
+
 End Walk.
 
 
@@ -292,6 +695,9 @@ Arguments ttl {P} _.
 Arguments Fill {P} _ _ _.
 Arguments fbuy {P} _.
 Arguments fsell {P} _.
+Arguments fvol {P} _.
+Arguments filled_of {P} _ _ _.
+Arguments rule_price {P} _ _.
 Arguments time_lt {P} _ _.
 Arguments choose_price {P} _ _ _.
 Arguments need_pop {P} _.
